@@ -2,8 +2,12 @@ package sim
 
 import (
 	"bytes"
+	"crypto/sha256"
 	"encoding/json"
 	"fmt"
+	dsecp "github.com/decred/dcrd/dcrec/secp256k1/v4"
+	decdsa "github.com/decred/dcrd/dcrec/secp256k1/v4/ecdsa"
+	"github.com/libp2p/go-libp2p/core/crypto"
 	"math"
 	"sort"
 	"strings"
@@ -180,6 +184,7 @@ type wireExec struct {
 	toks   []*wireTok
 	ledger map[string]map[string]bool // issuer DID -> signed contents
 	signed map[string]bool            // canonical encodings of every SigPayload an honest principal signed
+	pubs   map[string]crypto.PubKey   // issuer DID -> public key (for the harness's own signature check)
 	cur    *wireTok                   // the honest token the current step derives its mutants from
 	offers int
 }
@@ -474,6 +479,10 @@ func (e *wireExec) construct(i int, ts TokSpec) {
 		}
 	}
 	w.issuer = ent.id.String()
+	if e.pubs == nil {
+		e.pubs = map[string]crypto.PubKey{}
+	}
+	e.pubs[w.issuer] = ent.priv.GetPublic()
 	if e.ledger[w.issuer] == nil {
 		e.ledger[w.issuer] = map[string]bool{}
 	}
@@ -916,6 +925,17 @@ func (e *wireExec) conservation(acc []accepted, orig *wireTok, mutant []byte, ki
 			if !e.signed[string(semanticCanon(env.sp).Encode())] {
 				o.Violate("C06", "unsigned-envelope-part-accepted", fmt.Sprintf("%s accepted a %s mutant (%s): the payload fields are as signed, but the signed part as a whole (varsig header, tag, entries) was never signed in this form", a.dec, kindOfMutation, class), map[string]string{"mutation": kindOfMutation, "alg": orig.alg})
 				continue
+			}
+		}
+		// ... and the signature element must be one the ISSUER's key made over that signed part
+		// (checked with the key library directly, without any of go-ucan): a signature by somebody
+		// else, in whatever encoding, over content the issuer did sign elsewhere is still a forgery
+		if env, err := openEnvelope(mutant); err == nil {
+			if pub := e.pubs[rec.Iss]; pub != nil {
+				if ok, _ := pub.Verify(semanticCanon(env.sp).Encode(), env.sig.Data); !ok {
+					o.Violate("C06", "signature-not-by-issuer", fmt.Sprintf("%s accepted a %s mutant (%s): content and signed part are as the issuer signed them, but the signature it carries does not verify under the issuer's key", a.dec, kindOfMutation, class), map[string]string{"mutation": kindOfMutation, "alg": orig.alg})
+					continue
+				}
 			}
 		}
 		// same signed content under other bytes: canonicity (C08)
@@ -1399,6 +1419,27 @@ func (e *wireExec) sigStep(s *XStep, w *wireTok, env *envelope) {
 			return
 		}
 		m.sig.Data = sig
+	case "foreign_alt_sig":
+		// the signed part untouched or with its nonce rewritten, under a signature made by a key
+		// that is NOT the issuer's, in the encodings other libraries emit for the same curve:
+		// 65-byte compact recoverable, 64-byte r||s, DER
+		fk := dsecp.PrivKeyFromBytes(labelNonce(fmt.Sprint("foreign-secp-key", s.Val%5), 32))
+		if s.Val%2 == 1 {
+			m.payload.MapSet("nonce", cbBytes(labelNonce(fmt.Sprint("alt", s.Val), 12)))
+		}
+		h := sha256.Sum256(m.sp.Encode())
+		switch s.Val / 2 % 4 {
+		case 0:
+			m.sig.Data = decdsa.SignCompact(fk, h[:], true)
+		case 1:
+			m.sig.Data = decdsa.SignCompact(fk, h[:], false)
+		case 2:
+			c := decdsa.SignCompact(fk, h[:], true)
+			m.sig.Data = append([]byte{}, c[1:]...) // r||s
+		default:
+			m.sig.Data = decdsa.Sign(fk, h[:]).Serialize()
+		}
+		desc = fmt.Sprintf("signature by a foreign secp256k1 key, encoding %d, payload rewritten: %v", s.Val/2%4, s.Val%2 == 1)
 	case "churn":
 		// a long line of NEW principals passes through the decoders (each issues one honest token),
 		// and after each of them the victim's token is offered again with its content rewritten and
@@ -2042,7 +2083,10 @@ func (e *wireExec) byzStep(s *XStep, w *wireTok, env *envelope) {
 		// null is tolerated for optional / nullable fields; every other wrong kind must be rejected
 		mustReject = to != "null" || requiredField(kind, f)
 	case "range":
-		big := []*CB{cbUint(1 << 53), cbNint(1 << 53), cbUint(1<<63 - 1), cbUint(1 << 63), cbUint(math.MaxUint64), cbNint(math.MaxUint64), cbNint(1 << 63), cbNint(1<<53 - 1)}[s.Val%8]
+		// (just beyond the bound on either side, the extremes of int64 - MinInt64 has no negation -
+		// and of the CBOR integer types)
+		big := []*CB{cbUint(1 << 53), cbNint(1 << 53), cbUint(1<<63 - 1), cbUint(1 << 63), cbUint(math.MaxUint64), cbNint(math.MaxUint64), cbNint(1 << 63), cbNint(1<<53 - 1),
+			cbNint(1<<63 - 1), cbNint(1<<63 - 2), cbUint(1 << 62), cbNint(1 << 62)}[s.Val%12]
 		switch f {
 		case "nbf", "exp", "iat":
 			pl.MapSet(f, big)
@@ -2051,7 +2095,7 @@ func (e *wireExec) byzStep(s *XStep, w *wireTok, env *envelope) {
 			if a == nil || a.Major != 5 {
 				return
 			}
-			switch s.Val / 8 % 4 {
+			switch s.Val / 12 % 4 {
 			case 0:
 				a.MapSet("huge", cbArray(cbMap(cbText("v"), big)))
 			case 1:
@@ -2062,15 +2106,15 @@ func (e *wireExec) byzStep(s *XStep, w *wireTok, env *envelope) {
 				a.MapSet("huge", cbMap(cbText("a"), cbInt(1), cbText("b"), cbMap(cbText("c"), cbArray(cbArray(big)))))
 			}
 		case "pol":
-			if s.Val >= 32 {
+			if s.Val >= 48 {
 				// ... or an integer of the policy that lives in a SELECTOR (an index, a slice bound),
 				// written in decimal: beyond 2^53-1, beyond int64, and so long that a careless
 				// accumulator wraps it back into range
-				n := []string{"9007199254740992", "-9007199254740992", "9223372036854775808", "18446744073709551621", "-18446744073709551618", "36893488147419103237", "55340232221128654855", "99999999999999999999999999", "18446744073709551616"}[(s.Val-32)%9]
-				sel := []string{".l[" + n + "]", ".[" + n + "]", ".l[" + n + ":]", ".l[1:" + n + "]", ".a.l[" + n + "]?", ".l[-" + strings.TrimPrefix(n, "-") + ":" + n + "]"}[(s.Val-32)/9%6]
+				n := []string{"9007199254740992", "-9007199254740992", "9223372036854775808", "18446744073709551621", "-18446744073709551618", "36893488147419103237", "55340232221128654855", "99999999999999999999999999", "18446744073709551616"}[(s.Val-48)%9]
+				sel := []string{".l[" + n + "]", ".[" + n + "]", ".l[" + n + ":]", ".l[1:" + n + "]", ".a.l[" + n + "]?", ".l[-" + strings.TrimPrefix(n, "-") + ":" + n + "]"}[(s.Val-48)/9%6]
 				pl.MapSet("pol", cbArray(cbArray(cbText("=="), cbText(sel), cbInt(1))))
 				big = cbText(sel)
-			} else if s.Val/8%2 == 0 {
+			} else if s.Val/12%2 == 0 {
 				pl.MapSet("pol", cbArray(cbArray(cbText("=="), cbText(".a"), big)))
 			} else {
 				pl.MapSet("pol", cbArray(cbArray(cbText("=="), cbText(".b"), cbInt(1)), cbArray(cbText("and"), cbArray(cbArray(cbText("any"), cbText(".l"), cbArray(cbText(">"), cbText("."), cbArray(cbInt(0), big)))))))
@@ -2571,7 +2615,8 @@ func (e *wireExec) matchHostile(s *XStep) {
 	if d == nil {
 		return
 	}
-	vals := []*CB{cbUint(1 << 63), cbUint(math.MaxUint64), cbNint(math.MaxUint64), cbInt(5), cbText("x"), cbFloat64(math.Inf(1)), cbFloat64(math.NaN()), cbNull(), cbBytes([]byte{1}), cbArray(cbUint(1<<63), cbInt(1)), cbMap(cbText("x"), cbUint(1<<63))}
+	vals := []*CB{cbUint(1 << 63), cbUint(math.MaxUint64), cbNint(math.MaxUint64), cbInt(5), cbText("x"), cbFloat64(math.Inf(1)), cbFloat64(math.NaN()), cbNull(), cbBytes([]byte{1}), cbArray(cbUint(1<<63), cbInt(1)), cbMap(cbText("x"), cbUint(1<<63)),
+		cbNint(1<<63 - 1), cbNint(1<<53 - 1), cbUint(1 << 53), cbUint(1<<63 - 1), cbArray(cbInt(1), cbNint(1<<63-1)), cbMap(cbText("a"), cbText("t"), cbText("b"), cbNint(1<<63-1))}
 	v := vals[s.Val%len(vals)]
 	kv := []*CB{}
 	for _, k := range []string{"n", "s", "l", "m", "f", "b", "a", "big"} {
@@ -2622,7 +2667,14 @@ func (e *wireExec) matchHostile(s *XStep) {
 		o.Eval("C09")
 	}
 	// the same data offered as arguments / metadata values through the public constructors
-	guardT(o, "args.Add(node)", len(raw), false, func() { _ = args.New().Add("x", node) })
+	var aerr error
+	guardT(o, "args.Add(node)", len(raw), false, func() { aerr = args.New().Add("x", node) })
+	// (a ready-made node is an argument value like any other: integers beyond +/-(2^53-1) anywhere
+	// in it are refused)
+	o.Eval("C10")
+	if aerr == nil && !intsInRange(node) {
+		o.Violate("C10", "argument-out-of-range-accepted", "args.Add accepted a ready-made node holding an integer beyond +/-(2^53-1)", map[string]string{"go_type": "datamodel.Node"})
+	}
 	guardT(o, "meta.Add(node)", len(raw), false, func() { _ = meta.NewMeta().Add("x", node) })
 }
 
